@@ -28,7 +28,7 @@ RULES_DOC.update({
     "R8": "attribute plumbing: set_recursive sets/clears exactly the RECURSIVE bit, get reads it, create_with_attr/get_attr copy attrs, init clears owner/nesting",
     "R9": "wait-list waiters and wakers classify a unit as yieldable through the same type-checked accessor (never the unchecked cast)",
 })
-VARIANTS = ["simple_mutex", "active_wait", "no_ext_thread", "no_linux_futex"]
+VARIANTS = ["simple_mutex", "active_wait", "no_ext_thread", "no_linux_futex", "tool_interface"]
 
 MH = "src/include/abti_mutex.h"
 LOCK, WLOCK = "ABTI_mutex::lock", "ABTI_mutex::waiter_lock"
